@@ -555,7 +555,7 @@ class Assembler:
             return
         if self.vacuity and not bodiless:
             self.vac_n = getattr(self, 'vac_n', 0) + 1
-            vac = [(lineno, 'vac_marker(%d), // vacuity twin: unprovable unless the context is contradictory' % self.vac_n, dict(kind='contract', file=rel, line=lineno, fn=key, clause_kind='vacuity', tags=None))]
+            vac = [(lineno, 'crate::vac_marker(%d), // vacuity twin: unprovable unless the context is contradictory' % self.vac_n, dict(kind='contract', file=rel, line=lineno, fn=key, clause_kind='vacuity', tags=None))]
             if spec_lines is None:
                 spec_lines = []
             idx = None
